@@ -266,6 +266,16 @@ Definition c_iadd (s : st) (head : term) (items : list term) : st * res :=
           fresh := f1 |}, RNone)
   end.
 
+(* c += c (also c += iter(c), c += Collection(g, c.uri)): since 3075b467 __iadd__
+   starts with "other = list(other)", so the argument - here list(graph.items(uri)) -
+   is evaluated completely (and may raise ValueError on a cyclic chain) before
+   the chain is opened *)
+Definition c_iadd_self (s : st) (head : term) : st * res :=
+  match c_iter (gr s) head with
+  | RList ys => c_iadd s head ys
+  | r => (s, r)
+  end.
+
 (* clear: every turn with a rest link removes a triple, so length g + 1 turns
    are always enough; fuel only makes the recursion structural *)
 Fixpoint clear_f (fuel : nat) (g : graph) (container : option term) : option graph :=
@@ -286,7 +296,10 @@ Definition c_clear (g : graph) (head : term) : graph * res :=
 Inductive op :=
 | OGet (i : Z) | OSet (i : Z) (v : term) | ODel (i : Z)
 | OAppend (v : term) | OIadd (vs : list term) | OClear
-| OLen | OIter | OIndex (v : term) | OContains (v : term).
+| OLen | OIter | OIndex (v : term) | OContains (v : term)
+| OInit (vs : list term)     (* Collection(graph, uri, vs) on the node that already heads the list *)
+| ON3                        (* c.n3(): the members in the order of iteration *)
+| OIaddSelf.                 (* c += c *)
 
 Definition with_g (s : st) (gr' : graph * res) : st * res :=
   ({| gr := fst gr'; fresh := fresh s |}, snd gr').
@@ -303,7 +316,13 @@ Definition c_step (head : term) (s : st) (o : op) : st * res :=
   | OIter => (s, c_iter (gr s) head)
   | OIndex v => (s, c_index (gr s) head v)
   | OContains v => (s, c_contains (gr s) head v)
+  | OInit vs => match vs with [] => (s, RNone) | _ => c_iadd s head vs end   (* if seq: self += seq *)
+  | ON3 => (s, c_iter (gr s) head)
+  | OIaddSelf => c_iadd_self s head
   end.
+
+Definition is_exc (r : res) : bool := match r with RExc _ => true | _ => false end.
+Definition is_hang (r : res) : bool := match r with RHang => true | _ => false end.
 
 (* what the harness looks at after every operation *)
 Record snap := {
@@ -324,10 +343,15 @@ Definition snap_of (head : term) (s : st) (r : res) : snap :=
   {| s_res := r; s_items := c_iter (gr s) head; s_len := c_len (gr s) head;
      s_gets := gets_of (gr s) head; s_triples := gr s |}.
 
+Definition hang_snap : snap :=
+  {| s_res := RHang; s_items := RHang; s_len := RHang; s_gets := []; s_triples := [] |}.
+
 Fixpoint c_run (head : term) (s : st) (ops : list op) : list snap :=
   match ops with
   | [] => []
-  | o :: r => let '(s', x) := c_step head s o in snap_of head s' x :: c_run head s' r
+  | o :: r => let '(s', x) := c_step head s o in
+              if is_hang x then [hang_snap]     (* nothing can be observed after a hang; the history ends *)
+              else snap_of head s' x :: c_run head s' r
   end.
 
 (* the rdf:first / rdf:rest triples of a list whose cells and members are
@@ -408,6 +432,9 @@ Definition lstep (xs : list term) (o : op) : list term * res :=
   | OIter => (xs, RList xs)
   | OIndex v => (xs, match index_of v xs with Some k => RNat k | None => RExc ValueError end)
   | OContains v => (xs, RBool (memb N.eqb v xs))
+  | OInit vs => (xs ++ vs, RNone)
+  | ON3 => (xs, RList xs)
+  | OIaddSelf => (xs ++ xs, RNone)
   end.
 
 (* the result demanded of an operation: exactly the list's, except that for
@@ -448,24 +475,43 @@ Definition wf_check (head : term) (xs : list term) (T : list triple) : bool :=
          end
   end.
 
-Definition snap_ok (head : term) (xs : list term) (sn : snap) : bool :=
-  res_eqb (s_items sn) (RList xs) && res_eqb (s_len sn) (RNat (N.of_nat (length xs)))
-  && list_eqb res_eqb (s_gets sn) (map RTerm xs) && wf_check head xs (s_triples sn).
+(* Subjects that can never be a cell of the collection under test: everything
+   below CELL0 except the head (and rdf:nil, which must stay without first/rest
+   triples).  The graph may hold any triples with such subjects - other
+   collections (also with a tail leading into this one), nested lists used as
+   members, unrelated statements; they are the FRAME: no operation may touch them. *)
+Definition frozen (s : term) : bool :=
+  negb (N.eqb s HEAD) && negb (N.eqb s NIL) && N.ltb s CELL0.
+Definition own_part (fz : term -> bool) (T : list triple) : list triple :=
+  filter (fun t => negb (fz (subj t))) T.
+Definition frame_part (fz : term -> bool) (T : list triple) : list triple :=
+  filter (fun t => fz (subj t)) T.
 
-Fixpoint spec_run (head : term) (xs : list term) (ops : list op) (obs : list snap) : bool :=
+(* after an operation: list(c), len(c), every c[i]; the triples whose subject is
+   not frozen, restricted to first/rest, are exactly the chain of xs; the triples
+   with a frozen subject are those the graph started with *)
+Definition snap_ok (noise : list triple) (head : term) (xs : list term) (sn : snap) : bool :=
+  res_eqb (s_items sn) (RList xs) && res_eqb (s_len sn) (RNat (N.of_nat (length xs)))
+  && list_eqb res_eqb (s_gets sn) (map RTerm xs)
+  && wf_check head xs (own_part frozen (s_triples sn))
+  && tseteqb (frame_part frozen (s_triples sn)) (frame_part frozen noise).
+
+Fixpoint spec_run (noise : list triple) (head : term) (xs : list term) (ops : list op) (obs : list snap) : bool :=
   match ops, obs with
   | [], [] => true
   | o :: r, sn :: obs' =>
       let '(xs', e) := lstep xs o in
-      res_ok o e (s_res sn) && snap_ok head xs' sn && spec_run head xs' r obs'
+      res_ok o e (s_res sn) && snap_ok noise head xs' sn && spec_run noise head xs' r obs'
   | _, _ => false
   end.
 
 Definition spec_ok (c : case) (obs : list snap) : bool :=
-  spec_run HEAD (c_init c) (c_ops c) obs.
+  spec_run (c_noise c) HEAD (c_init c) (c_ops c) obs.
 
-(* cases in scope: the noise triples do not use rdf:first / rdf:rest *)
-Definition wfb (c : case) : bool := forallb (fun t => negb (is_fr t)) (c_noise c).
+(* cases in scope: a noise triple whose subject is not frozen (the head, rdf:nil, a
+   cell) does not use rdf:first / rdf:rest *)
+Definition wfb (c : case) : bool :=
+  forallb (fun t => frozen (subj t) || negb (is_fr t)) (c_noise c).
 
 (* ---------------------------------------------------------------- known findings *)
 (* the one remaining trigger region, stated on the Python list the history produces:
@@ -488,7 +534,7 @@ Definition kf (c : case) : N := kf_run (c_init c) (c_ops c).
 Record rcase := { r_graph : list triple; r_ops : list op }.
 
 Definition is_read (o : op) : bool :=
-  match o with OGet _ | OLen | OIter | OIndex _ | OContains _ => true | _ => false end.
+  match o with OGet _ | OLen | OIter | OIndex _ | OContains _ | ON3 => true | _ => false end.
 
 Definition r_model (c : rcase) : list res :=
   map (fun o => snd (c_step HEAD {| gr := r_graph c; fresh := 1000%N |} o)) (r_ops c).
@@ -513,14 +559,11 @@ Fixpoint cyclic_f (stop_falsy : bool) (fuel : nat) (g : graph) (c : term) (seen 
 (* the chain Graph.items walks (it stops at a falsy node) is cyclic *)
 Definition cyclic_iter (g : graph) (head : term) : bool :=
   match cyclic_f true (fuel_of g) g head [head] with Some b => b | None => false end.
-Definition is_exc (r : res) : bool := match r with RExc _ => true | _ => false end.
-Definition is_hang (r : res) : bool := match r with RHang => true | _ => false end.
-
 (* no read hangs (index() included); on a chain that is cyclic, list(c) and len(c) raise *)
 Definition r_ok (g : graph) (o : op) (r : res) : bool :=
   negb (is_hang r)
   && match o with
-     | OIter | OLen => if cyclic_iter g HEAD then is_exc r else true
+     | OIter | OLen | ON3 => if cyclic_iter g HEAD then is_exc r else true
      | _ => true
      end.
 Fixpoint r_run (g : graph) (ops : list op) (obs : list res) : bool :=
